@@ -12,8 +12,8 @@ import (
 // Run is the C15 check.
 func Run(c *core.Ctx) int {
 	r := c.Rand("types")
-	specs := keySpecs(r, c.N(12, 360))
-	histories, steps := c.N(10, 200), 200
+	specs := keySpecs(r, c.N(12, 120))
+	histories, steps := c.N(10, 60), 200
 	type job struct {
 		name  string
 		files map[string]string
